@@ -113,21 +113,24 @@ def const(k):
 
 
 class Env:
-    __slots__ = ("iv", "sf", "cur", "pre", "fld")
+    __slots__ = ("iv", "sf", "cur", "pre", "fld", "alias")
 
     def __init__(self):
         self.iv, self.sf, self.cur, self.pre, self.fld = {}, {}, {}, {}, {}
+        self.alias = {}         # pointer variable -> (base string, integer key or None, constant): p == base + key + constant
 
     def copy(self):
         e = Env()
         e.iv, e.sf, e.cur, e.pre, e.fld = dict(self.iv), dict(self.sf), dict(self.cur), dict(self.pre), dict(self.fld)
+        e.alias = dict(self.alias)
         return e
 
     def key(self):
         return tuple(sorted((k, v) for k, v in self.fld.items()))
 
     def same(self, o):
-        return self.iv == o.iv and self.sf == o.sf and self.cur == o.cur and self.pre == o.pre and self.fld == o.fld
+        return self.iv == o.iv and self.sf == o.sf and self.cur == o.cur and self.pre == o.pre and self.fld == o.fld and \
+            self.alias == o.alias
 
 
 def mat(av, env):
@@ -171,6 +174,9 @@ def env_join(a, b):
     for k in a.fld:
         if k in b.fld and a.fld[k] == b.fld[k]:
             o.fld[k] = a.fld[k]
+    for k in a.alias:
+        if b.alias.get(k) == a.alias[k]:
+            o.alias[k] = a.alias[k]
     return o
 
 
@@ -372,6 +378,48 @@ class StrDomain:
             return None, None
         return s, off
 
+    def ptr_alias(self, e, env):
+        """e == S + v + c with one integer variable v (or none): (S, key of v, c); through an existing alias of S"""
+        e = strip(e, casts=True)
+        terms = []
+        while e.get("kind") == "BinaryOperator" and e.get("opcode") == "+" and "*" in qtype(e):
+            l, r = kids(e)
+            if "*" not in qtype(strip(l, casts=True)) and "*" in qtype(strip(r, casts=True)):
+                l, r = r, l
+            terms.append(r)
+            e = strip(l, casts=True)
+        b = self.sid(e)
+        if b is None:
+            return None
+        key, c = None, 0
+        for t in terms:
+            v = self.eng.ce.try_eval(t)
+            if v is not None:
+                c += v
+                continue
+            k2, c2 = self.varlike(t)
+            if k2 is None or key is not None:
+                return None
+            key, c = k2, c + c2
+        if b in env.alias:
+            b0, k0, c0 = env.alias[b]
+            if k0 is not None and key is not None:
+                return None
+            return (b0, key if key is not None else k0, c + c0)
+        return (b, key, c)
+
+    def through_alias(self, s, idx, env):
+        """(base string, index into it) for an access S[idx] where S is a known alias base + v + c"""
+        if s in env.alias:
+            b, key, c = env.alias[s]
+            off = self.norm(env.iv.get(key, TOPV), env).shift(c) if key is not None else const(c)
+            if idx.exact():
+                return b, off.shift(int(idx.lo))
+            if off.exact():
+                return b, idx.shift(int(off.lo))
+            return b, AV(off.lo + idx.lo, off.hi + idx.hi)
+        return s, idx
+
     def varlike(self, e):
         """e == var + k  ->  (ikey, k)"""
         e = strip(e, casts=True)
@@ -389,9 +437,14 @@ class StrDomain:
         for d in (env.cur, env.pre):
             for k in [k for k in d if k[1] == key]:
                 del d[k]
+        for p in [p for p, a in env.alias.items() if a[1] == key]:
+            del env.alias[p]
 
     def kill_string(self, s, env, reset=True):
         """the contents / length of s may have changed"""
+        if not reset:       # the pointer itself moved: nothing is an alias of it or through it any more
+            for p in [p for p, a in env.alias.items() if p == s or a[0] == s]:
+                del env.alias[p]
         for k, av in list(env.iv.items()):
             if s in av.ub or s in av.eq:
                 env.iv[k] = AV(av.lo, av.hi, {x: c for x, c in av.ub.items() if x != s}, {x: c for x, c in av.eq.items() if x != s})
@@ -511,7 +564,7 @@ class StrDomain:
                 e2 = env.copy()
                 self.ev(ks[1], e2)
                 j = env_join(env, e2)
-                env.iv, env.sf, env.cur, env.pre, env.fld = j.iv, j.sf, j.cur, j.pre, j.fld
+                env.iv, env.sf, env.cur, env.pre, env.fld, env.alias = j.iv, j.sf, j.cur, j.pre, j.fld, j.alias
                 return AV(0, 1)
             a, b = self.ev(ks[0], env), self.ev(ks[1], env)
             if op in NEG:
@@ -572,7 +625,7 @@ class StrDomain:
             a, b = self.ev(ks[1], e1), self.ev(ks[2], e2)
             j = env_join(e1, e2)
             r = av_join(a, b, e1, e2)
-            env.iv, env.sf, env.cur, env.pre, env.fld = j.iv, j.sf, j.cur, j.pre, j.fld
+            env.iv, env.sf, env.cur, env.pre, env.fld, env.alias = j.iv, j.sf, j.cur, j.pre, j.fld, j.alias
             return r
         if k == "CallExpr":
             return self.call(e, env)
@@ -586,6 +639,8 @@ class StrDomain:
 
     def set_int(self, key, av, env, delta=None):
         env.iv[key] = av
+        for p in [p for p, a in env.alias.items() if a[1] == key]:
+            del env.alias[p]
         if env.fld and not isinstance(key, tuple):
             d = self.eng.prog.by_id.get(key)
             nm = d.get("name") if d else None
@@ -652,8 +707,15 @@ class StrDomain:
 
     def assign_ptr(self, s, rhs, env):
         r = strip(rhs, casts=True)
+        if r.get("kind") == "BinaryOperator" and self.ptr_sum(r, env.copy())[0] == s:
+            # p = p + n  is an advance of p
+            _, n = self.ptr_sum(r, env)
+            self.advance(s, n, r, env)
+            return
         self.moved.add(s)
         self.walked.discard(s)
+        for p in [p for p, a in env.alias.items() if p == s or a[0] == s]:
+            del env.alias[p]
         self.kill_string(s, env)
         env.sf[s] = SF()
         if r.get("kind") == "CallExpr":
@@ -671,11 +733,15 @@ class StrDomain:
             src, n = self.ptr_sum(r, env)
             env.sf[s] = env.sf.get(src, SF())
             self.advance(s, n, r, env, base=src)
+            al = self.ptr_alias(r, env)
+            if al is not None and s != al[0]:
+                env.alias[s] = al
             return
         self.ev(rhs, env)
 
     # ---- accesses ----------------------------------------------------------------------------------
     def access(self, s, idx, node, env, kind):
+        s, idx = self.through_alias(s, idx, env)
         f = env.sf.get(s, SF())
         if f is None:
             self.site(node, kind, False, "the pointer may be NULL here")
@@ -709,6 +775,7 @@ class StrDomain:
 
     def store(self, s, idx, v, node, env):
         self.access(s, idx, node, env, "write")
+        s, idx = self.through_alias(s, idx, env)
         f = env.sf.get(s)
         idx = self.norm(idx, env)
         inside = f is not None and idx.lo >= 0 and self.excess(idx, s, env) <= -1
@@ -926,7 +993,7 @@ class StrDomain:
         for r, e2 in results[1:]:
             rv = av_join(rv, r, merged, e2)
             merged = env_join(merged, e2)
-        env.iv, env.sf, env.cur, env.pre, env.fld = merged.iv, merged.sf, merged.cur, merged.pre, merged.fld
+        env.iv, env.sf, env.cur, env.pre, env.fld, env.alias = merged.iv, merged.sf, merged.cur, merged.pre, merged.fld, merged.alias
         return rv
 
     def _rename(self, path, args, ps):
@@ -1071,6 +1138,14 @@ class StrDomain:
             s, idx = self.sid(kids(n0)[0]), kids(n0)[1]
         elif n0.get("kind") == "UnaryOperator" and n0.get("opcode") == "*" and self.sid(kids(n0)[0]) is not None:
             s, idx = self.sid(kids(n0)[0]), None
+        elif n0.get("kind") == "UnaryOperator" and n0.get("opcode") == "*":
+            b = strip(kids(n0)[0], casts=True)
+            if b.get("kind") == "BinaryOperator" and b.get("opcode") == "+":
+                l, r = kids(b)
+                if self.sid(l) is None and self.sid(r) is not None:
+                    l, r = r, l
+                if self.sid(l) is not None:
+                    s, idx = self.sid(l), r
         if s is None:
             return None
         if not tr:
@@ -1199,15 +1274,25 @@ class StrDomain:
 
     def assume_char(self, ct, env):
         s, idxn, R = ct
-        f = env.sf.get(s, SF())
-        if f is None:
-            return env
-        env.sf.setdefault(s, f)
         if idxn is None:
             key, k, idx = None, 0, const(0)
         else:
             key, k = self.varlike(idxn)
             idx = self.norm(self.ev(idxn, env.copy()), env)
+        if s in env.alias:
+            # a test of alias[e] is a test of base[v + c + e]
+            b, akey, c = env.alias[s]
+            if key is None and idx.exact():
+                s, (_, idx2) = b, self.through_alias(s, idx, env)
+                key, k, idx = akey, c + int(idx.lo), self.norm(idx2, env)
+            else:
+                s, idx = self.through_alias(s, idx, env)
+                key, k = None, 0
+                idx = self.norm(idx, env)
+        f = env.sf.get(s, SF())
+        if f is None:
+            return env
+        env.sf.setdefault(s, f)
         nonnul = 0 not in R
         ex = self.excess(idx, s, env)
         if idx.exact() and idx.lo == 0:
